@@ -48,6 +48,11 @@ pub enum Node {
     /// around the select's query exchange, the second cannot finish before the select is over (it is
     /// released afterwards): (arg+3)*31 + 5
     SelRace { spin: u32 },
+    /// a child sends the process a message and THEN finishes; the process selects over the message
+    /// and the child: what the child sent before finishing is there before its completion, wherever
+    /// the two are placed: arg*31 + arg+1. (Only with the receive source written first: with the
+    /// process first, both can be ready at one evaluation and written order legitimately decides.)
+    SendThenFinish { spin: u32, msg_first: bool },
 }
 
 pub struct Gen {
@@ -109,7 +114,13 @@ impl Gen {
                     match rng.below(3) {
                         0 => Node::RefKids,
                         1 => Node::SelTwice,
-                        _ => Node::SelRace { spin: *rng.pick(&[0u32, 0, 3, 8, 20, 60]) },
+                        _ => {
+                            if rng.chance(1, 2) {
+                                Node::SelRace { spin: *rng.pick(&[0u32, 0, 3, 8, 20, 60]) }
+                            } else {
+                                Node::SendThenFinish { spin: *rng.pick(&[0u32, 5, 30, 120]), msg_first: true }
+                            }
+                        }
                     }
                 } else if rng.chance(1, 3) {
                     Node::BareReply { tail: rng.chance(2, 3) }
@@ -236,6 +247,17 @@ impl Gen {
                 self.defs.push(format!("{name} = #'int {{ =n, c = n @#'int {{ =m, {sp}[[0x0a0b, {reps}] __binary_repeat__, 0xff] __binary_concat__ }}, b = !c, [b __binary_length__, n] __integer_add__ }}"));
                 name
             }
+            Node::SendThenFinish { spin, msg_first } => {
+                self.procs += 3;
+                if !self.defs.iter().any(|d| d.starts_with("stf = ")) {
+                    self.defs.push("stf = #[(@-> 'int), (@'int), 'int] { =[g, to, m], x = !g, m to, [m, 1] __integer_add__ }".to_string());
+                    self.defs.push("rel = #[(@'int), 'int] { =[t, s], w = [s, 0] spin, 1 t }".to_string());
+                }
+                let name = self.fresh();
+                let sel = if *msg_first { "! [#'int, p]" } else { "! [p, #'int]" };
+                self.defs.push(format!("{name} = #'int {{ =n, me = &., g = @blk, p = [&g, &me, n] @stf, r = [&g, {spin}] @rel, y = {sel}, [[y, 31] __integer_multiply__, !p] __integer_add__ }}"));
+                name
+            }
             Node::SelRace { spin } => {
                 self.procs += 2;
                 let name = self.fresh();
@@ -317,6 +339,7 @@ pub fn eval(node: &Node, arg: i128) -> i128 {
         Node::RefKids => arg + 1,
         Node::SelTwice => (arg + 5) * 100 + arg + 6,
         Node::SelRace { .. } => (arg + 3) * 31 + 5,
+        Node::SendThenFinish { .. } => arg * 31 + arg + 1,
         Node::SelDone { a, b, swap } => {
             let (va, vb) = (eval(a, arg + 1), eval(b, arg + 2));
             let (first, second) = if *swap { (vb, va) } else { (va, vb) };
@@ -384,6 +407,11 @@ pub fn shape(node: &Node, h: &mut crate::rng::Fnv) {
         }
         Node::RefKids => h.u64(11),
         Node::SelTwice => h.u64(12),
+        Node::SendThenFinish { spin, msg_first } => {
+            h.u64(14);
+            h.u64(*spin as u64);
+            h.u64(*msg_first as u64);
+        }
         Node::SelRace { spin } => {
             h.u64(13);
             h.u64(*spin as u64);
